@@ -133,6 +133,14 @@ impl RegistryMap {
     )]
     pub fn entry(&self, key: String) -> Entry { unimplemented!() }
 
+    /// looking whether a name is taken is harmless in itself (it is one atomic step, like `get`)
+    #[verus_verify(external_body)]
+    #[verus_spec(r =>
+        with Tracked(log): Tracked<&mut EffectLog>
+        ensures final(log).s == old(log).s.push(Effect::Get(key@, if r { Some(arbitrary()) } else { None })),
+    )]
+    pub fn contains_key(&self, key: &str) -> bool { unimplemented!() }
+
     /// guard stub: a blind overwrite of a slot is never allowed on the name registry
     #[verus_verify(external_body)]
     #[verus_spec(requires false)]
